@@ -18,3 +18,6 @@ func (s *SocksAdapter) VerifNegotiate(conn net.Conn) (target string, phase strin
 	}
 	return target, "", nil
 }
+
+// VerifHandleSocksConnection runs the real per-connection function (what Accept starts in a goroutine).
+func (s *SocksAdapter) VerifHandleSocksConnection(conn net.Conn) { s.handleSocksConnection(conn) }
